@@ -81,6 +81,12 @@ SetObjF(st, cx, o, l, v) ==
     IF l \notin DOMAIN cx.has[o] \/ ~cx.has[o][l] \/ v = Bad THEN Rejected(st)
     ELSE [ok |-> TRUE, st |-> [st EXCEPT !.objVal[o][l] = v]]
 
+\* several objects constructed from ONE style argument (the same dictionary object handed to several constructors):
+\* each of them gets the value as its own, whatever the order in which their styles are first read, copied or shown
+SetObjsF(st, cx, os, l, v) ==
+    IF v = Bad \/ (\E o \in os : l \notin DOMAIN cx.has[o] \/ ~cx.has[o][l]) THEN Rejected(st)
+    ELSE [ok |-> TRUE, st |-> [st EXCEPT !.objVal = [o \in DOMAIN st.objVal |-> IF o \in os THEN [st.objVal[o] EXCEPT ![l] = v] ELSE st.objVal[o]]]]
+
 \* any notation that gives leaf l of the defaults of family f the value v
 SetDefF(st, cx, f, l, v) ==
     IF l \notin DOMAIN cx.fhas[f] \/ ~cx.fhas[f][l] \/ v = Bad THEN Rejected(st)
@@ -123,13 +129,14 @@ SetKidsF(st, cx, k, asg, rec, badname) ==
          [ok |-> TRUE,
           st |-> [st EXCEPT !.objVal = [o \in DOMAIN st.objVal |-> [l \in DOMAIN st.objVal[o] |-> KidsValue(st, cx, mem, asg, o, l)]]]]
 
-\* call = [op, tgt, src, l, v, kw, badname, asg, rec]
+\* call = [op, tgt, src, l, v, kw, badname, asg, rec, tgts]
 Apply(st, cx, call) ==
     CASE call.op = "SetObj" -> SetObjF(st, cx, call.tgt, call.l, call.v)
       [] call.op = "SetDef" -> SetDefF(st, cx, call.tgt, call.l, call.v)
       [] call.op = "Reset"  -> ResetF(st, cx)
       [] call.op = "Copy"   -> CopyF(st, cx, call.src, call.tgt)
       [] call.op = "Show"   -> ShowF(st, cx, call.kw, call.badname)
+      [] call.op = "SetObjs" -> SetObjsF(st, cx, call.tgts, call.l, call.v)
       [] call.op = "SetKids" -> SetKidsF(st, cx, call.tgt, call.asg, call.rec, call.badname)
 
 (***************************************************************************)
